@@ -340,7 +340,35 @@ func (e *Engine) strBinop(op token.Token, x, y value) value {
 				return xs >= ys
 			}
 		}
-		e.unsupported("ordered comparison of symbolic strings")
+		// lexicographic byte order with symbolic bytes: x < y iff at the first differing position x's byte is
+		// smaller, or x is a proper prefix of y
+		lt, eqp := boolLit(false), boolLit(true)
+		n := len(xb)
+		if len(yb) < n {
+			n = len(yb)
+		}
+		for k := 0; k < n; k++ {
+			xt, yt := termOf(xb[k], 8), termOf(yb[k], 8)
+			lt = tOr(lt, tAnd(eqp, app(0, "bvult", xt, yt)))
+			eqp = tAnd(eqp, tEq(xt, yt))
+		}
+		if len(xb) < len(yb) {
+			lt = tOr(lt, eqp)
+		}
+		le := lt
+		if len(xb) == len(yb) {
+			le = tOr(lt, eqp)
+		}
+		switch op {
+		case token.LSS:
+			return symBool(lt)
+		case token.LEQ:
+			return symBool(le)
+		case token.GTR:
+			return symBool(tNot(le))
+		default:
+			return symBool(tNot(lt))
+		}
 	}
 	panic("strBinop " + op.String())
 }
